@@ -62,3 +62,25 @@ PROPS = {
         "budget": {"quick": 50, "thorough": 900},
     },
 }
+
+MODEL_RULE = ("sequential histories generated from the seed and executed against the real server inside the simulator (virtual clock, "
+              "background WAL writer on/off, graceful restarts and sleeps as operations), checked after every write/restart against the reference model; "
+              "distinct_nontrivial = distinct history shapes (record kind, timeframe, row count, years spanned, column-type multiset)")
+A_MODEL = "fault-free configuration (no crash, no injected I/O fault): restarts are graceful; the model knows nothing of the on-disk format"
+
+PROPS.update({
+    "C08": {
+        "level": "exploration", "engine": "MODEL", "rule": MODEL_RULE,
+        "faults": ["none (fault-free configuration)", "graceful restart", "virtual-time ticker flush/checkpoint"],
+        "assumptions": [A_MODEL],
+        "explanation": "oracle: all-time query = last-writer-wins interval map: one row per written interval, ascending, stamped with the interval start, values of the last write; all timeframes 1Sec..1D, all fixed-width types, unsorted input, duplicates, year edges, leap day",
+        "budget": {"quick": 40, "thorough": 600},
+    },
+    "C09": {
+        "level": "exploration", "engine": "MODEL", "rule": MODEL_RULE,
+        "faults": ["none (fault-free configuration)", "graceful restart", "compression on/off", "highly compressible payload bursts"],
+        "assumptions": [A_MODEL],
+        "explanation": "oracle: all-time query = time-ordered multiset of written records (by unique id), timestamps within the interval and less than tf/2^32 before the written time",
+        "budget": {"quick": 40, "thorough": 600},
+    },
+})
